@@ -540,6 +540,16 @@ class ServerTls(Server):
                                         )
 
 
+    def close(self):
+        """
+        Close listen socket, all incoming connections and all connections
+        whose tls handshake is still in progress
+        """
+        super(ServerTls, self).close()
+        for cx in self.cxes.values():  # remoter still handshaking
+            cx.close()
+
+
     def serviceAxes(self):
         """
         Service accepteds
